@@ -444,7 +444,9 @@ def val_conv(ctx, rule="VAL-CONV"):
         f = prog.fn("msi::<internal::value::Value as std::convert::From<%s>>::from" % ty)
         v = Sym(prog, f).local(0)
         n += 1
-        ctx.check(v in ("internal::value::Value::Int{(p1 as i32)}", "internal::value::Value::Int{p1}"), rule, "Value::from(%s)" % ty, v,
+        # ... or delegates the widened argument to Value::from(i32), which is checked in its own right
+        ctx.check(v in ("internal::value::Value::Int{(p1 as i32)}", "internal::value::Value::Int{p1}") or
+                  (ty != "i32" and v == "<internal::value::Value as std::convert::From<i32>>::from((p1 as i32))"), rule, "Value::from(%s)" % ty, v,
                   "Value::from(%s) builds %s: the integer handed in is not the integer stored (e.g. 40000u16 becomes negative)" % (ty, v), f.loc(), fn=f.name, key="%s|%s" % (rule, ty))
     ctx.floor(rule, "integer conversions into Value", n, 3)
 
